@@ -3,7 +3,8 @@
 (* Trace validation for C02.  Every line of the trace (harness/src/bin/    *)
 (* replay_tamper) is one complete exchange executed on REAL wallets over a *)
 (* real chain:                                                             *)
-(*   {c: the case TLC generated, run: ok | noreply | skip:<why>,           *)
+(*   {c: the case TLC generated (flow, shape, one or two alterations),     *)
+(*    run: ok | noreply | skip:<why>,                                      *)
 (*    o: the observed outcome: result class of finalize; for a success the *)
 (*       produced transaction by name and value, the verdict of the real   *)
 (*       verifier (Transaction::validate), byte equality with the stored   *)
@@ -30,8 +31,8 @@ VARIABLE l
 Rec == ndJsonDeserialize(IOEnv.TRACE)
 
 Case(j) == [flow |-> j.flow, nin |-> j.nin, nch |-> j.nch, incfee |-> j.incfee, proof |-> j.proof,
-            stage |-> j.stage, tamper |-> j.tamper]
-Class(c) == c.flow \o ":" \o c.stage \o ":" \o c.tamper
+            stage |-> j.stage, tamper |-> j.tamper, tamper2 |-> j.tamper2]
+Class(c) == c.flow \o ":" \o c.stage \o ":" \o c.tamper \o (IF c.tamper2 = "none" THEN "" ELSE "+" \o c.tamper2)
 
 Viol(e, m, info) ==
   PrintT(<<"VIOL", ToJson([line |-> l, id |-> e.c.id, m |-> m, cl |-> Class(Case(e.c)), info |-> info])>>)
